@@ -616,6 +616,18 @@ func (h *c05H) rsStart(base int, bad []int, spares []int) *c05RSTask {
 		bids = append(bids, core.TractserverID(x))
 	}
 	go func() {
+		defer func() {
+			if p := recover(); p != nil {
+				h.mu.Lock()
+				t.res, t.done = core.Error(-99), true
+				h.mu.Unlock()
+				h.bad("reconstruct-panicked", "reconstructChunk panicked (a chunk record read after its database transaction ended, finding F24?)",
+					map[string]interface{}{"panic": fmt.Sprint(p), "chunk": base})
+				if t.call != nil {
+					t.call = nil
+				}
+			}
+		}()
 		e := cur.C05Reconstruct(c05Chunk(base), bids)
 		h.mu.Lock()
 		t.res, t.done = e, true
@@ -796,15 +808,15 @@ func (h *c05H) actions() []vc.Action {
 	return acts
 }
 
-// rsWindow: what may happen while a reconstruction's RSEncode is outstanding.  Nothing here commits to
-// the curator's database: reconstructChunk keeps using the chunk record it read at its start (a view
-// into the bolt mmap whose read transaction has ended) after the RPC returns, so a metadata write in
-// the window can recycle that page and the task panics or reads a garbage host list (side finding,
-// see notes/C05.md); the schedule stays clear of that.
+// rsWindow: the RS-specific actions while a reconstruction's RSEncode is outstanding (execute, reply,
+// a report from a destination).  They are offered IN ADDITION to everything else (client writes,
+// re-replication, AckExtend/ChangeTract commits, delete/undelete, leader changes ...): since /repo
+// c7b338d reconstructChunk copies the chunk's host list before the RPC (finding F24), so metadata
+// writes in the window are harmless; a regression shows as a panic of the task (reported as
+// reconstruct-panicked) or as a host list that differs from the model's.
 func (h *c05H) rsWindow() []vc.Action {
 	d := h.d
 	r := d.R
-	nts := len(d.Cl.TS) - 1
 	var acts []vc.Action
 	for _, t := range h.openRS() {
 		t := t
@@ -820,24 +832,6 @@ func (h *c05H) rsWindow() []vc.Action {
 					acts = append(acts, vc.Action{W: 7, Run: func() { h.reportAll(int(dd.ID), r.Chance(1, 2)) }})
 				}
 			}
-		}
-	}
-	acts = append(acts, vc.Action{W: 4, Run: func() { h.reportAll(r.Range(1, nts), true) }})
-	if len(h.soup) > 0 {
-		acts = append(acts, vc.Action{W: 8, Run: func() {
-			in := h.soup[len(h.soup)-1-r.Intn(min(4, len(h.soup)))]
-			h.deliver(in, false)
-		}})
-	}
-	if h.nStray < 4 {
-		acts = append(acts, vc.Action{W: 2, Run: func() { h.stray(r.Range(1, nts)) }})
-	}
-	acts = append(acts, vc.Action{W: 2, Run: func() { d.LeaderChange() }})
-	acts = append(acts, vc.Action{W: 1, Run: func() { d.RestartTS(r.Range(1, nts)) }})
-	for i := 1; i <= nts; i++ {
-		i := i
-		if !d.Cl.Cur.KnowsTS(core.TractserverID(i)) {
-			acts = append(acts, vc.Action{W: 3, Run: func() { d.Heartbeat(i) }})
 		}
 	}
 	return acts
@@ -860,8 +854,12 @@ func (h *c05H) run(n int) {
 			continue
 		}
 		acts := d.Actions()
-		if len(h.openRS()) > 0 {
-			acts = h.rsWindow()
+		if len(h.openRS()) > 0 && d.Cl.S != nil {
+			if len(acts) == 1 && acts[0].W == 1 {
+				// an orphan of a finished curator task must be resolved first (Cluster fault model)
+			} else {
+				acts = append(acts, h.rsWindow()...)
+			}
 		}
 		tot := 0
 		for _, a := range acts {
@@ -1185,6 +1183,43 @@ func c05DirectedPending(root *vw.Rng, tr *vw.Trace, id string, leaderChange bool
 	h.report(10, []core.TractID{c05Piece(102), c05Sentinel(0)})
 	for _, in := range h.soup {
 		h.deliver(in, false)
+	}
+	h.rsReply(t, false)
+	h.sweep()
+	h.finish(tr)
+	vw.Stat("directed", 1)
+}
+
+// metadata writes while a reconstruction's RSEncode is outstanding (finding F24: the task must not read
+// the chunk record it fetched at its start after the RPC; the database pages may have been recycled).
+func c05DirectedRSWrites(root *vw.Rng, tr *vw.Trace, id string) {
+	d := vc.NewDriver(root.Fork(9006), 11, []bool{true, false}, id)
+	defer d.Cl.Close()
+	h := newC05H(d, id)
+	h.newBlob(3)
+	h.newBlob(3)
+	d.MaxTracts = 3
+	d.Big = true
+	d.Cl.S.SetAuto(false)
+	h.rsSetup(100, []int{1, 2, 3, 4, 5, 6, 7, 8, 9})
+	h.rsSetup(120, []int{2, 3, 4, 5, 6, 7, 8, 9, 10})
+	t := h.rsStart(100, []int{3}, []int{10})
+	if t.call == nil {
+		h.finish(tr)
+		return
+	}
+	h.rsExec(t)
+	for k := 0; k < 3; k++ {
+		d.StartWrite(0, 0, int64(k)*vc.TractLen+10, 40) // ExtendBlob + AckExtend: a metadata commit
+		d.Quiesce()
+		d.StartWrite(0, 1, int64(k)*vc.TractLen+10, 40)
+		d.Quiesce()
+		h.deleteBlob(1)
+		h.undeleteBlob(1)
+		if st := d.Cl.D.Tract(d.TractID(0, k)); st.OK && len(st.Hosts) == 3 {
+			d.StartReplicate(0, k, []int{int(st.Hosts[0])}) // ChangeTract
+			d.Quiesce()
+		}
 	}
 	h.rsReply(t, false)
 	h.sweep()
@@ -1597,6 +1632,7 @@ func TestVerifC05(t *testing.T) {
 		{"d-pending", func() { c05DirectedPending(root, tr, "d-pending", false) }},
 		{"d-pending-leader", func() { c05DirectedPending(root, tr, "d-pending-leader", true) }},
 		{"d-f5", func() { c05DirectedF5(root, tr, "d-f5") }},
+		{"d-rs-writes", func() { c05DirectedRSWrites(root, tr, "d-rs-writes") }},
 	}
 	for _, x := range dir {
 		if vw.CaseSelected(x.id) {
